@@ -320,6 +320,60 @@ pub fn run(tier: Tier, seed: u64) -> i32 {
     let s = explore(&fams, cap, &rep, |fam, h, dup, l| {
         judge("C01", seed, fam, h, dup, l);
     });
+    // long periodic histories: every pattern of period 1..3 over six operations (two tracks; empty, odd and even sizes;
+    // two durations; offsets; sync on/off) repeated to 33, 257 and 300 calls, and the patterns of period <= 2 to 65537
+    // calls — counters that wrap at 2^8 or 2^16 entries, chunks of more than 255 samples, run tables with many runs
+    {
+        use rayon::prelude::*;
+        let two = MovieSpec::new(1000, vec![TrackSpec::new(Kind::Avc, 1000), TrackSpec::new(Kind::Aac, 48000)]);
+        let letters = [
+            Op { track: 1, size: 1, dur: 500, off: 0, sync: true },
+            Op { track: 1, size: 2, dur: 500, off: 0, sync: false },
+            Op { track: 1, size: 0, dur: 1000, off: 7, sync: false },
+            Op { track: 1, size: 1, dur: 40, off: -7, sync: true },
+            Op { track: 2, size: 1, dur: 1024, off: 0, sync: true },
+            Op { track: 2, size: 2, dur: 48000, off: 0, sync: true },
+            // durations far below the timescale: the chunk is not closed for thousands of samples
+            Op { track: 1, size: 2, dur: 0, off: 0, sync: false },
+            Op { track: 2, size: 1, dur: 1, off: 0, sync: true },
+        ];
+        let mut items: Vec<(Vec<usize>, usize)> = vec![];
+        for period in 1..=3usize {
+            for code in 0..letters.len().pow(period as u32) {
+                let pat: Vec<usize> = (0..period).map(|i| (code / letters.len().pow(i as u32)) % letters.len()).collect();
+                for n in [33usize, 257, 300] {
+                    items.push((pat.clone(), n));
+                }
+                if period <= 2 {
+                    items.push((pat.clone(), 1100));
+                }
+                if period == 1 || (period == 2 && pat.iter().all(|&x| x >= 6)) {
+                    items.push((pat.clone(), 65537));
+                    items.push((pat.clone(), 70001));
+                }
+            }
+        }
+        let fam = Family { name: "i:long_periodic".into(), movie: two, alphabet: vec![], max_len: 0, filter: None };
+        let nlong = items.len();
+        let parts: Vec<Local> = items
+            .par_iter()
+            .map(|(pat, n)| {
+                let mut l = Local::default();
+                let h: Vec<Op> = (0..*n).map(|i| letters[pat[i % pat.len()]]).collect();
+                l.evaluations += 1;
+                judge("C01", seed, &fam, &h, false, &mut l);
+                l
+            })
+            .collect();
+        let mut ll = Local::default();
+        for mut p in parts {
+            ll.evaluations += p.evaluations;
+            ll.nontrivial += p.nontrivial;
+            ll.violations.merge(std::mem::take(&mut p.violations));
+        }
+        ev.set("long_periodic_histories", json!({"histories": nlong, "agreed": ll.nontrivial, "what": "584 patterns of period 1..3 over eight operations (two of them with durations far below the timescale, so that one chunk holds all samples) x lengths 33/257/300, the 72 patterns of period <= 2 also x 1100, period-1 patterns and the tiny-duration pairs x 65537 and 70001"}));
+        std::mem::take(&mut ll.violations).drain_into(&rep);
+    }
     // histories whose media data passes 4 GiB (sparse stream): two tracks interleaved, read back sample by sample
     let mut vl = Local::default();
     let volume: Vec<crate::props::c13::BigCase> = crate::props::c13::cases(Tier::Quick).into_iter().filter(|c| c.heavy && (c.name.starts_with("mdat_size=2^32+1") || c.name.starts_with("two_tracks_second_crosses"))).collect();
